@@ -141,6 +141,7 @@ def _worker(args):
     seeds, tag, variant, profile, monitor_names, keep = args
     import run
     import monitors
+    import paired  # noqa: F401  (registers C09 / C12 / C15)
     mons = [monitors.ALL[m] for m in monitor_names]
     r = run.run_batch(seeds, tag, variant, profile, monitors=mons)
     viols = []
